@@ -74,6 +74,26 @@ for pid in sorted(byid):
     na = [os.path.basename(x[0]) for x in byid[pid] if x[1] == "NOAPPLY"]
     parts.append(f"* **{pid}**: {c}/{tot} caught at integration" + (f"; missed: {', '.join(missed)}" if missed else "") + (f"; no longer applies to HEAD (context changed by a later repair): {', '.join(na)}" if na else ""))
 parts.append("")
+# benign (property-preserving) changes
+parts.append("### 10.4 Behaviour-changing but property-preserving changes (`benign/`)\n\nWritten by sub-agents that saw only the property texts (\u00a77 item 7). The property's quick check must stay silent on each; `ALARM` rows are false alarms that were then repaired in the oracle (the row shows the last run).\n\n| change | what it changes | quick check |\n|---|---|---|")
+bres = {}
+bp = f"{ROOT}/benign_results.tsv"
+if os.path.exists(bp):
+    for l in open(bp):
+        c = l.rstrip("\n").split("\t")
+        if len(c) >= 3:
+            bres[c[1].replace("/verif/", "")] = (c[2], c[3] if len(c) > 3 else "")
+for d in sorted(glob.glob(f"{ROOT}/benign/*/")):
+    name = os.path.basename(d.rstrip("/"))
+    try:
+        m = json.load(open(d + "meta.json"))
+    except Exception:
+        m = {}
+    r = bres.get(f"benign/{name}/patch.diff", ("not run", ""))
+    verdict = {"MISSED": "silent", "CAUGHT": "ALARM " + r[1]}.get(r[0], r[0])
+    what = (m.get("what", "") or "")[:300].replace("|", "\\|").replace("\n", " ")
+    parts.append(f"| {name} | {what} | {verdict} |")
+parts.append("")
 gen = "\n".join(parts)
 d = open(f"{ROOT}/DESIGN.md").read()
 B, E = "<!-- GENERATED:BEGIN -->", "<!-- GENERATED:END -->"
